@@ -411,6 +411,8 @@ func (d *DNSFilter) WriteDiskConfig(c *Config) {
 
 		*c = *d.conf
 		c.Rewrites = cloneRewrites(c.Rewrites)
+		// The caller reads it without the lock.
+		c.BlockedServices = c.BlockedServices.Clone()
 	}()
 
 	c.Filters = slices.Clone(d.conf.Filters)
